@@ -100,6 +100,15 @@ def check_raw(recipe) -> list[Fail]:
                         if got != v:
                             fails.append(Fail("raw:wrong-value", f"step {step} h{i} key={_abbr(k)}: got {len(got)}B {_abbr(got)} want {len(v)}B {_abbr(v)}"))
                             break
+                    else:
+                        # the observation must not tidy up after itself: reading every record in order would leave the stream at the end
+                        # of the file, exactly where the next put belongs.  Finish with the FIRST record, so that a put that trusts the
+                        # stream position (instead of its own end-of-data offset) is caught.
+                        if h.view:
+                            try:
+                                h.obj.get(next(iter(h.view)))
+                            except Exception:
+                                pass
 
         for step, op in enumerate(recipe["ops"]):
             name, hi = op[0], op[1]
@@ -494,6 +503,11 @@ def check_coll(recipe) -> list[Fail]:
                             break
                     if fails:
                         break
+                    if ks:
+                        try:
+                            coll[min(ks)]      # leave the file handle positioned inside the file, not at its end (see check_raw)
+                        except Exception:
+                            pass
             finally:
                 try:
                     cm.__exit__(None, None, None)
